@@ -127,6 +127,31 @@ chk('C11', 'model_checking', 'exhaustive enumeration of all interleavings of cal
     'hash seeds: stated subset only; <= 3 calls per object',
     'DESIGN.md section 5 C11')
 
+# multi-step layers added after the seeded waves 8 and 9 (DESIGN.md section 13.10): the same exhaustive enumeration over operation SEQUENCES on one or
+# several specification objects, not only over (formula, input) pairs
+MULTI = {
+    'C01': 'objects re-configured between two evaluations (all ordered pairs of 4 configurations)',
+    'C02': 'two co-resident monitors stepped in every interleaving, reset() of the second as an event',
+    'C03': 'five orders of the configuration calls around parse()/pastify()',
+    'C04': 'one object alternating between rejected and accepted data sets, with named sub-formulas',
+    'C06': 'interface re-declared with set_var_io_type() and parsed again (all ordered pairs of declarations)',
+    'C07': 'objects re-configured between two evaluations',
+    'C08': 'objects re-configured between two evaluations, including configurations that must then be rejected',
+    'C10': 'pre-reset histories that contain rejected update() calls',
+    'C11': 'isolation baseline taken in a fresh interpreter; same period number in different units',
+    'C12': 'get_value on re-configured objects against fresh stand-alone specifications',
+    'C13': 'configuration switched between two runs of one object (offline: second evaluate(); online: after reset())',
+    'C14': 'all sequences of up to 5 (thorough 6) operations {spec texts, add_sub_spec texts, parse()} on one object',
+    'C15': 'all variants given one after the other to one online object (parse, pastify, reset, updates); layout variants (white space, line ends, comments)',
+    'C16': 'objects with an earlier life under another configuration',
+    'C17': 'objects that held and evaluated another specification before (spec.spec = ...; parse() again)',
+    'C18': 'both sides of a law after a rejected update() and reset()',
+    'C19': 'dense and discrete objects re-configured between two evaluations',
+}
+for _pid, _t in MULTI.items():
+    CHECKS[_pid]['text'] += '; multi-step layer: ' + _t
+
+
 def main():
     props = [json.loads(l) for l in open(os.path.join(ROOT, 'properties.jsonl'))]
     checks = []
